@@ -51,6 +51,14 @@ def run(prog, tier):
     from . import c17 as _c17, c06 as _c06
     _borrow(R, P, "CLI", prog, lambda r, p: _c17.check_action_defaults(r, p, _c17.collect_helpers(p)), floor=1)
     _borrow(R, P, "DIMACS", prog, _c06.check_gates, floor=3)
+    # the declared count of a transformed formula is the documented one (C05: DECLARED-COUNT and the folded COMPOSITION)
+    from . import c05 as _c05
+
+    def _counts(r, p):
+        T_ = Result(P, "")
+        _c05.shape_rules(T_, p)
+        _c05.check_composition(r, p, T_)
+    _borrow(R, P, "TRANSFORM", prog, _counts, floor=10, only=lambda t: True)
     _borrow(R, P, "SHUFFLE", prog, lambda r, p: _c09.check_table(r, p, p.func(_c09.MOD, "Shuffle")), floor=1, only=lambda t: "declares" in t or "N variables" in t or "update_variable_number" in t)
     return R
 
